@@ -158,6 +158,19 @@ CHECKS["C18"] = dict(
     note=NOTE_BASE + "Proof over a modelled runtime: the translation of connection endings to unregistration is validated by fault-injection correspondence, not verified.",
     technique="Coq proof (router lifecycle theorems for every history) + fault-injection correspondence of the real connection handlers with the extracted model",
     design="4/C18")
+CHECKS["C17"] = dict(
+    text="Theorems over a model of the mechanism of BaseClient.waitforevent (asyncio.Event flag, result holder, temporary callback, one timeout "
+         "timer, a chain of polling timers) on a clock of instants where the environment orders everything that is due within an instant: a "
+         "10-clause core invariant and a 10-clause polling invariant are preserved by every move, for any number of concurrent waits and any "
+         "schedule. wait_outcome: with no matching event exactly at the timeout instant the outcome and its instant are a function of the history "
+         "(first matching event before the deadline, else timeout at the deadline instant, else pending); completed_by_exactly_one_cause (ties "
+         "included: never both, never neither); polling_at_delay_and_interval_until_completion; callback_registered_iff_still_waiting; "
+         "concurrent waits independent. The runtime (timers, wake-up in the same instant) is VALIDATED, not verified: the real waitforevent runs on "
+         "a virtual-clock asyncio loop; per wait the observed outcome/instant/poll instants must equal the model's under one of the admissible "
+         "orders of a tied instant.",
+    note=NOTE_BASE + "Proof over a modelled runtime: asyncio timers and wake-ups are modelled and validated on a virtual-clock loop.",
+    technique="Coq proof (wait invariants for every schedule and every number of concurrent waits) over a runtime model validated against the real event loop on a virtual clock",
+    design="4/C17")
 PENDING = {}
 props = [json.loads(l) for l in open(os.path.join(V, "properties.jsonl"))]
 checks, na = [], []
